@@ -139,3 +139,50 @@ func ZZ_C08_ConcurrentRequests() {
 		vx.Assert("price of the answer = own consumed units x own unit cost", uint64(sua.ServiceRating.Price) == uint64(consumed[i])*uint64(costs[i]))
 	}
 }
+
+// C08 over a sequence of requests through one handler instance: a request is
+// priced from its own members only. The second request leaves out an optional
+// AVP (Consumed-Units in a debit, Monetary-Quota in a reservation: absent
+// means 0) after a first request that carried it: nothing of the first
+// request shows in the second answer.
+//
+//gosx:property=C08 tier=quick unwind=40 timeout=30000
+func ZZ_C08_RequestSequence() {
+	costStr := vx.DecString("cost")
+	cost, _ := strconv.ParseInt(costStr, 10, 64)
+	vx.Assume(cost >= 1 && cost <= 1000)
+	vx.DBPut("imsi-ab", 1, "unitCost", costStr)
+	h := handleSUR()
+	conn, _ := vx.DiamConn().(diam.Conn)
+	mk := func(sub charging_datatype.RequestSubType, consumed, quota uint32) (*diam.Message, *charging_datatype.ServiceUsageRequest) {
+		var sur charging_datatype.ServiceUsageRequest
+		sur.SessionId = "s"
+		sur.SubscriptionId = &charging_datatype.SubscriptionId{SubscriptionIdType: charging_datatype.END_USER_IMSI, SubscriptionIdData: "ab"}
+		sur.ServiceRating = &charging_datatype.ServiceRating{ServiceIdentifier: 1, RequestSubType: sub,
+			ConsumedUnits: datatype.Unsigned32(consumed), MonetaryQuota: datatype.Unsigned32(quota)}
+		msg := diam.NewRequest(111, 16777218, nil)
+		vx.Assert("request marshals", msg.Marshal(&sur) == nil)
+		return msg, &sur
+	}
+	sub := charging_datatype.REQ_SUBTYPE_DEBIT
+	if vx.Choice("subtype", 2) == 1 {
+		sub = charging_datatype.REQ_SUBTYPE_RESERVE
+	}
+	first := vx.Uint32("first")
+	vx.Assume(first >= 1 && first <= 100000)
+	m1, _ := mk(sub, first, first)
+	h(conn, m1)
+	m2, _ := mk(sub, 0, 0)
+	if sub == charging_datatype.REQ_SUBTYPE_DEBIT {
+		vx.OmitAVP(m2, "ServiceRating.ConsumedUnits")
+	} else {
+		vx.OmitAVP(m2, "ServiceRating.MonetaryQuota")
+	}
+	h(conn, m2)
+	var sua charging_datatype.ServiceUsageResponse
+	ok := vx.AnswerTo(m2, &sua)
+	vx.Assert("the second request is answered", ok)
+	if ok && sua.ServiceRating != nil {
+		vx.Assert("a request without consumed units / quota is priced 0", sua.ServiceRating.Price == 0 && sua.ServiceRating.AllowedUnits == 0)
+	}
+}
